@@ -41,4 +41,43 @@ theorem C06_update_condition_is_source (t : TrialO) (st : TrialSt) (js : JobCond
     cases h4 : Cond.has st.conds .metricsUnavailable <;> cases h5 : Cond.has st.conds .failed <;>
     cases h6 : Cond.has st.conds .running <;> cases h7 : t.push <;> simp [h1, h2, h3, h4, h5, h6, h7]
 
+/-! ## `reconcileTrial` after `reconcileJob`: observation read, requeue, condition update -/
+
+def trialAfterJobGen (v : World) (t : TrialO) (state : JobState) (now : Nat) : Prog :=
+  let js? := jsOf state (tHas t .running)
+  let G (obsNil : Bool) (g : Bool → Bool → Bool → Bool → Bool → Bool → Bool → Bool → Bool → Bool) : Bool :=
+    g false true (tCompleted t) (tHas t .earlyStopped) js?.isNone (js? == some .succeeded) obsNil t.push false
+  let cont (st : TrialSt) : Prog :=
+    if G st.obs.isNone requeueNoMetricsGuard then .done .requeueAfter
+    else if G st.obs.isNone callUpdateConditionGuard then
+      (match js? with | some js => trialUpdateCondition t st js now | none => trialFinish t t.st)
+    else trialFinish t t.st
+  if G false callObservationGuard then
+    let logs := dbOf v t.key.name
+    if logs.isEmpty then .step (.dbGet t.key.name) (cont t.st) (.done .err)
+    else match Metrics.getMetrics logs [objMetric] with
+      | some ms => .step (.dbGet t.key.name) (cont { t.st with obs := some (ms.map (fun m => { m with lastTs := none })) }) (.done .err)
+      | none => .step (.dbGet t.key.name) (.done .err) (.done .err)
+  else cont t.st
+
+theorem C06_reconcile_trial_guards_known :
+    callObservationGuardUnknown = [] ∧ requeueNoMetricsGuardUnknown = [] ∧ callUpdateConditionGuardUnknown = [] ∧
+    callObservationGuardSites = 1 ∧ requeueNoMetricsGuardSites = 1 ∧ callUpdateConditionGuardSites = 1 := by decide
+
+set_option linter.unusedSimpArgs false in
+set_option maxHeartbeats 2000000 in
+/-- **C06_reconcile_trial_is_source**: when the observation is read, when the reconcile is requeued for missing metrics and
+    when the conditions are updated — the model's `trialAfterJob` is the function rebuilt from the regenerated path conditions -/
+theorem C06_reconcile_trial_is_source (v : World) (t : TrialO) (state : JobState) (now : Nat) :
+    trialAfterJob v t state now = trialAfterJobGen v t state now := by
+  unfold trialAfterJob trialAfterJobGen trialObserve callObservationGuard requeueNoMetricsGuard callUpdateConditionGuard
+  cases hjs : jsOf state (tHas t .running) with
+  | none => cases hc : tCompleted t <;> cases hes : tHas t .earlyStopped <;> simp [hc, hes]
+  | some js =>
+    cases js <;> cases hc : tCompleted t <;> cases hes : tHas t .earlyStopped <;> cases hp : t.push <;>
+      cases hl : (dbOf v t.key.name).isEmpty <;> simp [hc, hes, hp, hl] <;>
+      (try (cases hm : Metrics.getMetrics (dbOf v t.key.name) [objMetric] <;> simp [hm])) <;>
+      (try (cases ho : t.st.obs <;> simp [ho]))
+
+
 end Katib.Gen
